@@ -39,6 +39,13 @@ def setup(params):
     def construct(cls, msg_dict, asn4=False, addpath=False):
         raw = real_update(cls, msg_dict, asn4, addpath)
         _judge(raw, asn4, addpath)
+        if raw is not None and VERDICT['bad'] == 0:
+            # a message is also malformed when it carries more or fewer prefixes than it was asked to
+            # (a stray octet after a /0 prefix is itself a well-formed /0 prefix)
+            nw, nn = walker.update_prefix_counts(raw, addpath)
+            want_w, want_n = len(msg_dict.get('withdraw') or []), len(msg_dict.get('nlri') or [])
+            if nn != want_n or (nw != want_w and nw != 0):
+                VERDICT['bad'] += 1
         return raw
     Update.construct = classmethod(construct)
     Update._vf_wrapped = True
@@ -123,7 +130,7 @@ def ob_tunnel(label: int, pref: int, weight: int, tc: int, ttl: int, bsid: int) 
     elif kind == 'new-pref-bsid':
         value = {'0': 'new', '12': pref, '13': bsid}
     elif kind == 'new-all':
-        value = {'0': 'new', '12': pref, '13': bsid, '14': tc % 4, '15': ttl, '129': 'policy-%d' % P.get('n', 1),
+        value = {'0': 'new', '12': pref, '13': bsid, '14': tc % 4, '15': ttl, '129': P.get('name') or 'policy-%d' % P.get('n', 1),
                  '6': {'asn': weight, 'afi': P.get('afi', 'ipv4'),
                        'address': '1.1.1.1' if P.get('afi', 'ipv4') == 'ipv4' else '2001:db8::1'}}
     elif kind == 'none':
@@ -210,6 +217,9 @@ def obligations(tier, seed):
             out.append(ob('C08/tunnel-encaps/%s/enc=%s' % (kind, enc), 'ob_tunnel', {'kind': kind, 'enc': enc}, covers=['walked']))
     out.append(ob('C08/tunnel-encaps/new-all/ipv6-endpoint', 'ob_tunnel', {'kind': 'new-all', 'afi': 'ipv6'}, covers=['walked']))
     out.append(ob('C08/tunnel-encaps/new-all/long-name', 'ob_tunnel', {'kind': 'new-all', 'n': 10 ** 30}, covers=['walked']))
+    for nm in ('caf\u00e9-core', '\u4e2d\u6587', 'x' * 300):
+        out.append(ob('C08/tunnel-encaps/new-all/name=%s' % nm.encode('unicode_escape').decode()[:16], 'ob_tunnel',
+                      {'kind': 'new-all', 'name': nm}))
     out.append(ob('C08/tunnel-encaps/mpls/alone', 'ob_tunnel', {'kind': 'mpls', 'with_srte': False}, covers=['walked']))
     for tt in (6, 0, 1, 3):
         for evpn in (False, True):
